@@ -662,6 +662,54 @@ def oracle_stateful(ctx, cuqi, keyb, clsname, mk, N, K, tf, ckpath, seed, script
         fail("immutable", "stored entry unchanged since it was recorded", f"entry {first_diff([x for x, _ in events], ref)} changed",
              "a stored entry was altered by a later transition")
 
+    # ---- callback log over multi-stage op sequences (warm-up on a non-empty chain, after sampling,
+    #      after loading a checkpoint into a fresh sampler): demanded index = position of the state
+    #      in the recorded chain of the sampler object that produced it, state = the chain entry there
+    a_, b_ = max(1, min(4, N // 2 + 1)), max(2, min(5, N // 2 + 2))
+    sequences = [
+        [("w", a_), ("w", b_)],
+        [("s", a_), ("w", b_), ("s", 2)],
+        [("w", a_), "save", "load", ("w", b_)],
+        [("s", 2), "save", "load", ("w", b_), ("s", 1)],
+    ]
+    for ops in sequences:
+        opnames = [o if isinstance(o, str) else f"{'warmup' if o[0] == 'w' else 'sample'}({o[1]})" for o in ops]
+        try:
+            ev = []
+            mkcb = lambda log: (lambda x, i: log.append((np.array(x, dtype=float, copy=True), int(i))))
+            s, sc = start(mkcb(ev))
+            objs = [(s, ev)]
+            for o in ops:
+                if o == "save":
+                    s.save_checkpoint(ckpath)
+                elif o == "load":
+                    ev = []
+                    f = new(mkcb(ev))
+                    if scripted:
+                        f.script = sc
+                    f.load_checkpoint(ckpath)
+                    s = f
+                    objs.append((s, ev))
+                elif o[0] == "w":
+                    s.warmup(o[1], tune_freq=tf)
+                else:
+                    s.sample(o[1])
+        except Exception as e:
+            ctx.note(f"{keyb}: op sequence {opnames} raised {repr(e)[:120]}")
+            continue
+        for which, (obj, log) in enumerate(objs):
+            stored = chain(obj)
+            idx = [i for _, i in log]
+            if idx != list(range(len(stored))):
+                fail("callback", f"one call per stored state with its index in the chain: 0..{len(stored) - 1}", idx[:30],
+                     "callback not invoked exactly once per transition with the state's index in the chain",
+                     {"ops": opnames, "sampler_object": which})
+                break
+            if not chains_equal([x for x, _ in log], stored):
+                fail("callback", "callback state = chain entry at the index passed", f"first difference at {first_diff([x for x, _ in log], stored)}",
+                     "callback state differs from the recorded chain entry at that index", {"ops": opnames, "sampler_object": which})
+                break
+
     # ---- split and checkpoint at every position
     for p in range(N + 1):
         try:
